@@ -54,6 +54,7 @@ def run(ctx):
         ev.append(md6_event(256, b'', L, 8, rb(n), 8 * (n - cut))); ctx.mark(('bytealigned-bitlen', n, cut, L))
     ev.append(md6_event(64, b'', 64, 170, b'abc', None)); ev.append(md6_event(512, b'k', 0, 200, rb(100), None))      # round counts beyond every default
     def md6call(x):
+        from crysp.md import MD6
         h = MD6(128, b'', 64); h.rounds = 9; return h(x)
     for m in core.zero_edge_inputs(md6call, lambda i: b'zm-%d-%d' % (ctx.seed, i), want=2, tries=1500):
         ev.append(md6_event(128, b'', 64, 9, m, None)); ctx.mark(('zero-edge', m))
